@@ -1,5 +1,6 @@
 import KM.Lemmas.Admin
 import KM.Gen.C08
+import KM.Model.AdminPinned
 /-! # C08 — users manage only themselves; administration needs admin rights (+ U2F)
 
 Property theorems only. `authorize` transcribes the authorisation part of each handler
@@ -532,6 +533,258 @@ example : ((crun 300 (CState.init 1000)
      .advance 299, .call "adm".toList (some false)]).rets.map (fun r => (r.t, r.verdict, r.origin)))
     = [(1599, true, some 1000), (1300, true, some 1000), (1000, true, some 1000)] := by decide
 
+/-! ### order-dependent authorisation: requests as sequences on one shared admin cache -/
+
+/-- **Effects relative to the verdict the handler got**: whatever `IsAdminUser(actor)` returned
+(`adminV`), the effects of an accepted request are allowed *for that verdict* — so a request can
+exceed the property only if the verdict itself was wrong. -/
+theorem c08_effects_v (op : Op) (actor : Name) (level : Nat) (target : Name) (cfg : Cfg)
+    (groups : Groups) (adminV : Bool) (env : Env) (effs : List Effect)
+    (h : outcome op (authorizeV op actor level target cfg adminV (automationUser cfg groups target)) env
+      = .done effs) :
+    (∀ e ∈ effs, effectAllowedB adminV cfg groups op actor level target e = true) ∧
+      statusAllowedB adminV op = true := by
+  unfold authorizeV at h
+  split at h
+  · simp [outcome] at h
+  · have one : ∀ (e : Effect) (P : Prop), (effs = [e] → P) → (Outcome.done [e] = Outcome.done effs → P) :=
+      fun e P f hh => f (by injection hh with hh; exact hh.symm)
+    -- effect `changed eff` of a token operation
+    have tok : ∀ eff, op.tokenOp = true → gateToken actor level target adminV = .pass eff →
+        effectAllowedB adminV cfg groups op actor level target (.changed eff) = true := by
+      intro eff hop hg
+      obtain ⟨he, ht | ⟨ha, hu⟩⟩ := gateToken_pass hg
+      · have hnu : op.userAdmin = false := by cases op <;> simp [Op.tokenOp, Op.userAdmin] at hop ⊢
+        subst he; subst ht
+        simp [effectAllowedB, hnu]
+      · subst he
+        by_cases hta : eff = actor
+        · have hnu : op.userAdmin = false := by cases op <;> simp [Op.tokenOp, Op.userAdmin] at hop ⊢
+          simp [effectAllowedB, hta, hnu]
+        · have : (eff == actor) = false := by simpa using hta
+          simp [effectAllowedB, this, hop, ha, hu]
+    have adm : ∀ eff, op.userAdmin = true → gateAdmin target adminV = .pass eff →
+        effectAllowedB adminV cfg groups op actor level target (.changed eff) = true ∧ adminV = true := by
+      intro eff hop hg
+      obtain ⟨he, ha⟩ := gateAdmin_pass hg
+      subst he
+      refine ⟨?_, ha⟩
+      by_cases hta : eff = actor
+      · simp [effectAllowedB, hta, ha]
+      · have : (eff == actor) = false := by simpa using hta
+        simp [effectAllowedB, this, hop, ha]
+    have sing : ∀ (e : Effect), effectAllowedB adminV cfg groups op actor level target e = true →
+        effs = [e] → ∀ e' ∈ effs, effectAllowedB adminV cfg groups op actor level target e' = true := by
+      intro e he hl e' he'
+      rw [hl] at he'
+      simp only [List.mem_singleton] at he'
+      rw [he']; exact he
+    cases op with
+    | viewProfile =>
+      cases hg : gateProfile actor target adminV with
+      | deny w => simp [hg, outcome] at h
+      | pass eff =>
+        simp only [hg, outcome] at h
+        refine ⟨one _ _ (sing _ ?_) h, by simp [statusAllowedB, Op.userAdmin]⟩
+        rcases gateProfile_pass hg with ⟨_, he⟩ | ⟨_, he, ha⟩
+        · simp [effectAllowedB, he]
+        · simp [effectAllowedB, he, ha]
+    | manageU2F a =>
+      cases hg : gateToken actor level target adminV with
+      | deny w => simp [hg, outcome] at h
+      | pass eff =>
+        simp only [hg, outcome] at h
+        split at h
+        · cases h
+        · split at h
+          · cases h
+          · exact ⟨one _ _ (sing _ (tok eff rfl hg)) h, by simp [statusAllowedB, Op.userAdmin]⟩
+    | manageTOTP a =>
+      cases hg : gateToken actor level target adminV with
+      | deny w => simp [hg, outcome] at h
+      | pass eff =>
+        simp only [hg, outcome] at h
+        split at h
+        · cases h
+        · split at h
+          · cases h
+          · exact ⟨one _ _ (sing _ (tok eff rfl hg)) h, by simp [statusAllowedB, Op.userAdmin]⟩
+    | totpGenerate =>
+      simp only [outcome] at h
+      exact ⟨one _ _ (sing _ (by simp [effectAllowedB, Op.userAdmin])) h, by simp [statusAllowedB, Op.userAdmin]⟩
+    | totpValidateNew =>
+      simp only [outcome] at h
+      split at h
+      · cases h
+      · exact ⟨one _ _ (sing _ (by simp [effectAllowedB, Op.userAdmin])) h, by simp [statusAllowedB, Op.userAdmin]⟩
+    | u2fRegBegin =>
+      cases hg : gateToken actor level target adminV with
+      | deny w => simp [hg, outcome] at h
+      | pass eff =>
+        simp only [hg, outcome] at h
+        exact ⟨one _ _ (sing _ (tok eff rfl hg)) h, by simp [statusAllowedB, Op.userAdmin]⟩
+    | waRegBegin =>
+      cases hg : gateToken actor level target adminV with
+      | deny w => simp [hg, outcome] at h
+      | pass eff =>
+        simp only [hg, outcome] at h
+        exact ⟨one _ _ (sing _ (tok eff rfl hg)) h, by simp [statusAllowedB, Op.userAdmin]⟩
+    | u2fRegFinish =>
+      cases hg : gateToken actor level target adminV with
+      | deny w => simp [hg, outcome] at h
+      | pass eff =>
+        simp only [hg, outcome] at h
+        split at h
+        · cases h
+        · exact ⟨one _ _ (sing _ (tok eff rfl hg)) h, by simp [statusAllowedB, Op.userAdmin]⟩
+    | waRegFinish =>
+      cases hg : gateToken actor level target adminV with
+      | deny w => simp [hg, outcome] at h
+      | pass eff =>
+        simp only [hg, outcome] at h
+        split at h
+        · cases h
+        · exact ⟨one _ _ (sing _ (tok eff rfl hg)) h, by simp [statusAllowedB, Op.userAdmin]⟩
+    | listUsers =>
+      cases hg : gateAdmin target adminV with
+      | deny w => simp [hg, outcome] at h
+      | pass eff =>
+        simp only [hg, outcome] at h
+        have ha := (adm eff rfl hg).2
+        exact ⟨one _ _ (sing _ (by simp [effectAllowedB, ha])) h, by simp [statusAllowedB, ha]⟩
+    | addUser =>
+      cases hg : gateAdmin target adminV with
+      | deny w => simp [hg, outcome] at h
+      | pass eff =>
+        simp only [hg, outcome] at h
+        have ha := adm eff rfl hg
+        split at h
+        · cases h
+        · exact ⟨one _ _ (sing _ ha.1) h, by simp [statusAllowedB, ha.2]⟩
+    | deleteUser =>
+      cases hg : gateAdmin target adminV with
+      | deny w => simp [hg, outcome] at h
+      | pass eff =>
+        simp only [hg, outcome] at h
+        have ha := adm eff rfl hg
+        split at h
+        · cases h
+        · split at h
+          · exact ⟨one _ _ (sing _ ha.1) h, by simp [statusAllowedB, ha.2]⟩
+          · injection h with h
+            subst h
+            exact ⟨fun e he => (by cases he), by simp [statusAllowedB, ha.2]⟩
+    | bootstrapOTP =>
+      cases hg : gateAdmin target adminV with
+      | deny w => simp [hg, outcome] at h
+      | pass eff =>
+        simp only [hg, outcome] at h
+        have ha := adm eff rfl hg
+        split at h
+        · cases h
+        · exact ⟨one _ _ (sing _ ha.1) h, by simp [statusAllowedB, ha.2]⟩
+    | roleCert =>
+      cases hg : gateRole cfg actor target adminV (automationUser cfg groups target) with
+      | deny w => simp [hg, outcome] at h
+      | pass eff =>
+        simp only [hg, outcome] at h
+        obtain ⟨he, _, ha, hau⟩ := gateRole_pass hg
+        refine ⟨one _ _ (sing _ ?_) h, by simp [statusAllowedB, Op.userAdmin]⟩
+        subst he
+        have hi : isAutomationIdentity cfg groups eff = true := by
+          unfold isAutomationIdentity; rw [hau]; rfl
+        rcases ha with ha | ha
+        · simp [effectAllowedB, ha, hi]
+        · simp [effectAllowedB, ha, hi]
+
+/-- **Sequences, cache level**: along any sequence of requests and clock advances on one shared
+cache (the directory content may differ from request to request), whenever `IsAdminUser(actor)`
+answered `true` inside a handler, configuration + directory called that actor an administrator at
+some handled request of the same actor — less than `maxDur` earlier, or followed by a failed lookup
+for that actor less than `maxDur` earlier (`backedB`, computed from the history and the config only). -/
+theorem c08_seq_backed (maxDur : Nat) (hmax : 0 < maxDur) (cfg : Cfg) (t0 : Nat) (evs : List HEv) :
+    ∀ h ∈ (hrun maxDur cfg (HState.init t0) evs).handled, h.adminV = true →
+      backedB maxDur cfg (hrun maxDur cfg (HState.init t0) evs).handled h.t h.r.actor = true := by
+  intro h hh hv
+  have hs := hinv_run hmax evs (hinv_init maxDur cfg t0)
+  obtain ⟨r, hr, a, b, c⟩ := hs.ret h hh hv
+  have := backed_of_ret hs hr c
+  rw [a, b] at this
+  exact this
+
+/-- **Sequences, effect level** (the predicate the judge applies to every step of an observed
+sequence): every effect of every request of the sequence is allowed for an actor whose
+administrator status is `backedB` — i.e. established from configuration and directory, never from
+what an earlier request left in the cache. -/
+theorem c08_seq_effects (maxDur : Nat) (hmax : 0 < maxDur) (cfg : Cfg) (t0 : Nat) (evs : List HEv) :
+    ∀ h ∈ (hrun maxDur cfg (HState.init t0) evs).handled, ∀ (env : Env) (effs : List Effect),
+      outcome h.r.op h.dec env = .done effs →
+      (∀ e ∈ effs, effectAllowedB
+          (backedB maxDur cfg (hrun maxDur cfg (HState.init t0) evs).handled h.t h.r.actor)
+          cfg h.r.groups h.r.op h.r.actor h.r.level h.r.target e = true) ∧
+        statusAllowedB (backedB maxDur cfg (hrun maxDur cfg (HState.init t0) evs).handled h.t h.r.actor)
+          h.r.op = true := by
+  intro h hh env effs ho
+  have hs := hinv_run hmax evs (hinv_init maxDur cfg t0)
+  rw [hs.dec h hh] at ho
+  obtain ⟨h1, h2⟩ := c08_effects_v h.r.op h.r.actor h.r.level h.r.target cfg h.r.groups h.adminV env effs ho
+  have hb := c08_seq_backed maxDur hmax cfg t0 evs h hh
+  exact ⟨fun e he => effectAllowedB_mono hb cfg _ _ _ _ _ e (h1 e he), statusAllowedB_mono hb _ h2⟩
+
+/-- **Sequences, readable form**: a user-administration request, a view of a named profile or a change
+of another user's tokens that is accepted anywhere in a sequence implies that, at some handled request
+of the same actor not later than it, the actor was an administrator by configured name or by a group
+the directory reported (and, for token operations, that the session carries the U2F bit). In
+particular nothing an automation administrator does first can make a later admin-only request pass. -/
+theorem c08_seq_admin (maxDur : Nat) (hmax : 0 < maxDur) (cfg : Cfg) (t0 : Nat) (evs : List HEv) :
+    ∀ h ∈ (hrun maxDur cfg (HState.init t0) evs).handled, ∀ eff, h.dec = .pass eff →
+      (h.r.op.userAdmin = true ∨ (h.r.op = .viewProfile ∧ h.r.target ≠ []) ∨
+        (h.r.op.tokenOp = true ∧ eff ≠ h.r.actor)) →
+      (∃ h' ∈ (hrun maxDur cfg (HState.init t0) evs).handled,
+        h'.r.actor = h.r.actor ∧ h'.t ≤ h.t ∧ IsAdmin cfg h'.r.groups h.r.actor) ∧
+      (h.r.op.tokenOp = true → h.r.level.testBit 3 = true) := by
+  intro h hh eff hp hop
+  have hs := hinv_run hmax evs (hinv_init maxDur cfg t0)
+  have hd := hs.dec h hh
+  rw [hp] at hd
+  have hd' : authorizeV h.r.op h.r.actor h.r.level h.r.target cfg h.adminV
+      (automationUser cfg h.r.groups h.r.target) = .pass eff := hd.symm
+  have key : h.adminV = true ∧ (h.r.op.tokenOp = true → u2fBit h.r.level = true) := by
+    unfold authorizeV at hd'
+    split at hd'
+    · cases hd'
+    · rcases hop with hop | ⟨hop, ht⟩ | ⟨hop, hne⟩
+      · have hnt : h.r.op.tokenOp = false := by
+          cases hq : h.r.op <;> simp [hq, Op.userAdmin, Op.tokenOp] at hop ⊢
+        refine ⟨?_, fun hx => by rw [hnt] at hx; cases hx⟩
+        cases hq : h.r.op <;> simp [hq, Op.userAdmin] at hop <;> (rw [hq] at hd'; exact (gateAdmin_pass hd').2)
+      · rw [hop] at hd'
+        refine ⟨?_, fun hx => by rw [hop] at hx; cases hx⟩
+        rcases gateProfile_pass hd' with ⟨ht', _⟩ | ⟨_, _, ha⟩
+        · exact absurd ht' ht
+        · exact ha
+      · have : eff = h.r.target ∧ (h.r.target = h.r.actor ∨ (h.adminV = true ∧ u2fBit h.r.level = true)) := by
+          cases hq : h.r.op <;> simp [hq, Op.tokenOp] at hop <;> (rw [hq] at hd'; exact gateToken_pass hd')
+        obtain ⟨he, ht | ⟨ha, hu⟩⟩ := this
+        · exact absurd (he.trans ht) hne
+        · exact ⟨ha, fun _ => hu⟩
+  have hb := c08_seq_backed maxDur hmax cfg t0 evs h hh key.1
+  refine ⟨?_, fun hx => (u2fBit_iff _).mp (key.2 hx)⟩
+  unfold backedB at hb
+  simp only [List.any_eq_true, Bool.and_eq_true, beq_iff_eq, decide_eq_true_eq] at hb
+  obtain ⟨h', hh', ⟨⟨⟨ha, ht⟩, hadm⟩, _⟩⟩ := hb
+  exact ⟨h', hh', ha, ht, (isAdmin_iff _ _ _).mp hadm⟩
+
+/-- the seeded-change class as a concrete history of the model: an automation administrator who
+is not an administrator first obtains a role certificate, then asks for the user list — the second
+request is refused because only `IsAdminUser` writes the cache, with a verdict that ignores the
+`AutomationAdmins` list. -/
+example : ((hrun 300 exCfg (HState.init 1000)
+    [.req ⟨.roleCert, "auto".toList, 2, "robot".toList, exGroups⟩,
+     .advance 10,
+     .req ⟨.listUsers, "auto".toList, 2, [], exGroups⟩]).handled.map (·.dec))
+    = [.deny .notAdmin, .pass "robot".toList] := by decide
+
 /-! ### every handler of the current source tree (regenerated table) -/
 
 def lookupFact (n : List Char) : Option KM.AdminSite.HandlerFact :=
@@ -561,17 +814,14 @@ theorem c08_sites :
       (!(w.2.any namesOther) || allOps.any (fun op => handlerName op == w.1))) = true := by
   decide
 
-/-- **Helpers**: the small functions the model transcribes literally still read as transcribed. -/
-theorem c08_helpers :
-    KM.Gen.c08Helpers =
-    [("IsAdminUser".toList, "{ isAdmin, valid := state.isAdminCache.Get(user) if valid { return isAdmin } newIsAdmin, err := state._IsAdminUser(user) if err == nil { state.isAdminCache.Put(user, newIsAdmin) return newIsAdmin } state.isAdminCache.Put(user, isAdmin) return isAdmin }".toList),
-     ("IsAdminUserAndU2F".toList, "{ return state.IsAdminUser(user) && ((loginLevel & AuthTypeU2F) != 0) }".toList),
-     ("isAutomationAdmin".toList, "{ isAdmin := state.IsAdminUser(user) if isAdmin { return true } for _, adminUser := range state.Config.Base.AutomationAdmins { if user == adminUser { return true } } return false }".toList),
-     ("admincache.get".toList, "{ if c == nil { return false, false } c.mu.Lock() defer c.mu.Unlock() entry := c.data[user] return entry.IsAdmin, c.isValid(entry.Ts) }".toList),
-     ("admincache.put".toList, "{ if c == nil { return } c.mu.Lock() defer c.mu.Unlock() c.data[user] = cacheEntry{IsAdmin: isAdmin, Ts: c.clock.Now()} }".toList),
-     ("admincache.isValid".toList, "{ if ts.IsZero() { return false } return c.clock.Now().Sub(ts) < c.maxDuration }".toList),
-     ("admincache.New".toList, "{ return newForTesting(maxDuration, kSystemClock) }".toList)] := by
-  unfold KM.Gen.c08Helpers
-  with_reducible rfl
+/-! **Helpers**: the small functions the model transcribes literally still read as transcribed
+(`KM/Model/AdminPinned.lean` holds the pinned text; a difference fails at once and names the helper). -/
+theorem c08_helpers_IsAdminUser : KM.Gen.c08Helper_IsAdminUser = Pinned.IsAdminUser := by decide +kernel
+theorem c08_helpers_IsAdminUserAndU2F : KM.Gen.c08Helper_IsAdminUserAndU2F = Pinned.IsAdminUserAndU2F := by decide +kernel
+theorem c08_helpers_isAutomationAdmin : KM.Gen.c08Helper_isAutomationAdmin = Pinned.isAutomationAdmin := by decide +kernel
+theorem c08_helpers_admincache_get : KM.Gen.c08Helper_admincache_get = Pinned.admincache_get := by decide +kernel
+theorem c08_helpers_admincache_put : KM.Gen.c08Helper_admincache_put = Pinned.admincache_put := by decide +kernel
+theorem c08_helpers_admincache_isValid : KM.Gen.c08Helper_admincache_isValid = Pinned.admincache_isValid := by decide +kernel
+theorem c08_helpers_admincache_New : KM.Gen.c08Helper_admincache_New = Pinned.admincache_New := by decide +kernel
 
 end KM.Admin
